@@ -183,6 +183,16 @@ def check_pins(prop):
     if not os.path.exists(pins):
         return [], "no pins file for " + prop
     os.makedirs(WORK, exist_ok=True)
+    # every library the pins file imports has to be up to date with the sources (a model file edited since the last
+    # full build would otherwise leave a stale .vo behind: "inconsistent assumptions")
+    mods = []
+    for line in re.findall(r"^From SF Require Import ([^\n]*?)\.\s*$", open(pins).read(), re.M):
+        mods += line.split()
+    targets = [m.replace(".", "/") + ".vo" for m in mods if os.path.exists(os.path.join(COQ, m.replace(".", "/") + ".v"))]
+    if targets:
+        ok, out = coq_make(targets)
+        if not ok:
+            return [], "libraries imported by the pinned statements do not build:\n" + out[-3000:]
     tmpv = os.path.join(WORK, "Pins_%s.v" % prop)
     with open(tmpv, "w") as f:
         f.write(open(pins).read())
